@@ -28,7 +28,9 @@ def expected_consumer(item, pad):
 @register("C17")
 def check_C17(tier):
     chk = Check("C17", tier)
-    chk.rule = ("Stream.tla: n = 1..2 pairs, MaxSlots = 2n..2n+1, payload 0..3 chunks, pipe capacity 1..2, re-run; weakened variants refuted; real: n = 1..3 pairs, "
+    chk.rule = ("Flow.tla with streaming ports (FIFO hand-over at task.take, command rendez-vous, slots): n = 1..3 pairs at the exact slot bound max = n + 1, weak "
+                "StreamAtDone / NoFifoRemove refuted, slot-bound counter-example replayed with gates, every real run validated by FlowTrace.tla; "
+                "Stream.tla: n = 1..2 pairs, MaxSlots = 2n..2n+1, payload 0..3 chunks, pipe capacity 1..2, re-run; weakened variants refuted; real: n = 1..3 pairs, "
                 "payloads {0, 1 KiB, 64 KiB +- 1, 1 MiB}, producer-lingers / consumer-lingers, jitter, history run + run again; observed: consumer bytes, no regular file "
                 "at the stream path, no pipe and no temp dir at return, Upstream record names the producer; non-trivial = distinct (n, payload, exit order)")
     chk.assumptions = ["one consumer per streaming port, maxConcurrentTasks >= 2n (stated precondition)"]
@@ -50,6 +52,45 @@ def check_C17(tier):
     r10 = run_tlc("Stream", "s.cfg", cfgtext=stream_cfg(1, 2, 1, 1, invs="C17_AuditLink", live=False), workers=2, timeout=120); chk.add_tlc(r10)
     r5 = run_tlc("Stream", "s.cfg", cfgtext=stream_cfg(1, 2, 1, 1, rerun=True, invs="C17_Slots"), workers=2, timeout=120); chk.add_tlc(r5)
     model_f10 = bool(r10.violated); model_f5 = bool(r5.deadlock or r5.violated)
+    # ---- Flow.tla: streaming inside the dataflow runtime (FIFO hand-over when the task is taken, rendez-vous of the two commands,
+    #      slots): closed models for n pairs with the exact slot bound, weakened variants, gate replay of the bound's counter-example
+    flow_cases = [(1, 2, {}), (2, 3, {}), (2, 4, dict(extra_outs=("copy",)))] + ([(3, 4, {}), (2, 3, dict(chain=True)), (3, 6, dict(extra_outs=("copy",)))] if thorough else [])
+    def flow_inst(n, mx, extra_outs=(), chain=False, buf=1):
+        i = stream_inst(n, mx, extra_outs=extra_outs); i["bufsize"] = buf
+        if chain:
+            i["procs"].append(zoo.cmd("d", ["x"], ["out"])); i["edges"].append(zoo.E("c.out", "d.x"))
+        return i
+    def closed(c):
+        return c, fc.closed_model(flow_inst(c[0], c[1], **c[2]), liveness=True, workers=4, timeout=900 if thorough else 300)
+    for c, r in pmap(closed, flow_cases, workers=3):
+        if r.error: chk.undecided.append("Flow.tla streaming instance %s: %s" % (c, r.error[-200:])); continue
+        chk.add_tlc(r); chk.evaluations += 1
+        if not r.ok: chk.undecided.append("Flow.tla with streaming ports (n=%d max=%d %s) violates %s" % (c[0], c[1], c[2], r.violated or "deadlock"))
+        else:
+            chk.nontrivial.add("flow-closed:%s" % json.dumps(c))
+            chk.sample(dict(kind="closed-model Flow.tla", pairs=c[0], max=c[1], options=c[2], distinct_states=r.distinct))
+    for weak, expect in (("StreamAtDone", "deadlock"), ("NoFifoRemove", "C17_NoFifoLeft")):
+        r = fc.closed_model(flow_inst(1, 2), liveness=False, workers=2, timeout=120, weak=[weak]); chk.add_tlc(r)
+        if not (r.violated or r.deadlock): chk.undecided.append("weakened Flow model %s found no counter-example" % weak)
+        else: chk.extra.setdefault("weak_variants_refuted", []).append("Flow:%s -> %s" % (weak, r.violated or "deadlock"))
+    # the model's slot bound: n producers can take n slots before any consumer runs, so max = n dead-locks and max = n + 1 does not.
+    # Below the stated precondition (max >= 2n) this is not a violation; the counter-example is replayed to show model and code agree.
+    rb = fc.closed_model(flow_inst(2, 2), liveness=False, workers=2, timeout=120); chk.add_tlc(rb)
+    sched = "exec.acquired@p|in=in/1.txt#1,exec.acquired@p|in=in/2.txt#1,exec.begin@c|in=#1"
+    if not rb.deadlock:
+        chk.undecided.append("Flow.tla: two streaming pairs with two slots do not dead-lock in the model - slot bound changed?")
+    else:
+        got = []
+        for mx in (2, 3):
+            rr = fc.real_runs(flow_inst(2, mx, buf=2), [dict(env={"VERIF_SCHED": sched, "VERIF_GATE_MS": "3000"}, bufsize=2, timeout=15)])[0]
+            chk.evaluations += 1
+            got.append((mx, bool(rr.timeout or rr.deadlock), rr.completed))
+        chk.extra["slot_bound_replay"] = dict(schedule=sched, results=[dict(max=m, hangs=h, completed=c) for m, h, c in got],
+                                              model="max = n dead-locks (both producers hold the slots), max = n + 1 terminates")
+        if got[1][1] or not got[1][2]:
+            chk.violation("two streaming pairs with three slots (both producers first) did not terminate although one consumer fits", dict(instance=flow_inst(2, 3), schedule=sched))
+        if not got[0][1]:
+            print("DRIFT: the model's dead-lock for two streaming pairs on two slots (both producers acquire first) was not reproduced", flush=True)
     # ---- real runs --------------------------------------------------------------------------
     pads = [0, 1000, 65535, 65537] + ([1 << 20, 65536, 200000] if thorough else [1 << 20])
     cases = []
@@ -72,9 +113,27 @@ def check_C17(tier):
         if order == "stale":
             inst["pre"] = ["p.out_1"]
         vs = [dict(env={}, bufsize=4, timeout=40), dict(env={"VERIF_JITTER": str(rng.randrange(10**6))}, bufsize=1, timeout=40)]
-        return c, inst, fc.real_runs(inst, vs[: (2 if thorough else 1)] if pad < 100000 else vs[:1])
-    for c, inst, rrs in pmap(one, cases, workers=8):
+        rrs = fc.real_runs(inst, vs[: (2 if thorough else 1)] if pad < 100000 else vs[:1])
+        det = mon = None
+        good = [r for r in rrs if not (r.timeout or r.deadlock) and r.rc == 0]
+        if order != "stale" and good:
+            det, mon, _ = fc.validate_traces(inst, fc.expected(inst), good)
+        return c, inst, rrs, det, mon
+    for c, inst, rrs, det, mon in pmap(one, cases, workers=8):
         n, pad, order, multi = c
+        for res, kind in ((det, "FlowTrace"), (mon, "Monitor")):
+            if res is None: continue
+            if res.error: chk.undecided.append("%s on a streaming run: %s" % (kind, res.error[-200:])); continue
+            chk.add_tlc(res)
+            if res.violated:
+                if fc.prop_of_invariant(res.violated) == "C17":
+                    chk.violation("invariant %s violated on the trace of a real streaming run (%s, n=%d payload=%d %s)" % (res.violated, kind, n, pad, order), dict(instance=inst, tlc=res.out[-2500:]))
+                else: chk.notes.append("other-property %s" % res.violated)
+            elif res.rejected and kind == "FlowTrace":
+                print("DRIFT: FlowTrace rejected a recorded streaming run (n=%d payload=%d %s) at line %d: %s" % (n, pad, order, res.rejected[0], res.rejected[1][:200]), flush=True)
+                chk.extra["drift"] = chk.extra.get("drift", 0) + 1
+            elif res.ok and kind == "FlowTrace":
+                chk.traces += len([r for r in rrs if r.rc == 0])
         label = "n=%d payload=%d %s max=%d%s" % (n, pad, order, inst["max"], " producer with 2 further regular out-ports" if multi else "")
         for rr in rrs:
             chk.evaluations += 1
